@@ -65,15 +65,15 @@ type MapV struct {
 }
 
 type Object struct {
-	ID    int
-	Name  string
-	Type  types.Type
-	Entry bool // existed at function entry (parameter-reachable)
-	Global bool
+	ID         int
+	Name       string
+	Type       types.Type
+	Entry      bool // existed at function entry (parameter-reachable)
+	Global     bool
 	Escaped    bool
 	Unmodelled bool       // slice of aggregates whose contents are not modelled: loads give fresh values
 	ElemType   types.Type // element type of an unmodelled slice
-	Root  string
+	Root       string
 }
 
 func (o *Object) String() string { return fmt.Sprintf("%s#%d", o.Name, o.ID) }
